@@ -143,8 +143,8 @@ func (s *Sched) Go(name string, fn func(t *Task)) *Task {
 //go:norace
 func (t *Task) body(fn func(t *Task)) {
 	t.gid = curGid()
-	t.park("start", nil)
 	defer t.finish()
+	t.park("start", nil)
 	fn(t)
 }
 
